@@ -209,7 +209,10 @@ pub struct Batch<C> {
     pub harness_errors: Vec<String>,
     /// violating runs (bounded), sorted by run index
     pub violating: Vec<RunRecord<C>>,
+    /// violations that match no known finding
     pub violation_count: u64,
+    /// violations matching a known finding, per finding id
+    pub known_hits: BTreeMap<String, u64>,
     /// the first few runs, for the evidence samples
     pub samples: Vec<RunRecord<C>>,
     /// order-independent digest of all per-run event-log hashes
@@ -228,6 +231,7 @@ impl<C> Batch<C> {
             harness_errors: Vec::new(),
             violating: Vec::new(),
             violation_count: 0,
+            known_hits: BTreeMap::new(),
             samples: Vec::new(),
             event_digest: 0,
             event_log: Vec::new(),
@@ -243,6 +247,9 @@ impl<C> Batch<C> {
         self.harness_errors.append(&mut o.harness_errors);
         self.violating.append(&mut o.violating);
         self.violation_count += o.violation_count;
+        for (k, v) in o.known_hits {
+            *self.known_hits.entry(k).or_insert(0) += v;
+        }
         self.samples.append(&mut o.samples);
         self.event_digest = self.event_digest.wrapping_add(o.event_digest);
         self.event_log.append(&mut o.event_log);
@@ -253,7 +260,7 @@ const MAX_KEPT_VIOLATIONS: usize = 256;
 
 /// Run `count` generated cases over all cores. Deterministic in (seed, property, count):
 /// everything aggregated is order-independent (sums, sets) or sorted by run index.
-pub fn run_cases<P: Property>(p: &P, seed: u64, tier: Tier, count: u64) -> Batch<P::Case> {
+pub fn run_cases<P: Property>(p: &P, seed: u64, tier: Tier, count: u64, known: &[KnownFinding]) -> Batch<P::Case> {
     let next = AtomicU64::new(0);
     let out: Mutex<Batch<P::Case>> = Mutex::new(Batch::new());
     let fixed = p.fixed_cases();
@@ -282,6 +289,7 @@ pub fn run_cases<P: Property>(p: &P, seed: u64, tier: Tier, count: u64) -> Batch
                         let key = p.nontrivial_key(&case, &stats);
                         local.evaluations += 1;
                         local.total.merge(&stats);
+                        let mut is_known = false;
                         let outcome_hash = match &outcome {
                             Outcome::Pass => 1,
                             Outcome::Degenerate(w) => crate::rng::hash_str(w),
@@ -305,11 +313,17 @@ pub fn run_cases<P: Property>(p: &P, seed: u64, tier: Tier, count: u64) -> Batch
                                 }
                                 *local.degenerate.entry(why.clone()).or_insert(0) += 1;
                             }
-                            Outcome::Violation(_) => {
+                            Outcome::Violation(v) => {
                                 if let Some(k) = key {
                                     local.distinct.insert(k);
                                 }
-                                local.violation_count += 1;
+                                match known.iter().find(|k| matches_known(k, p.id(), v)) {
+                                    Some(k) => {
+                                        *local.known_hits.entry(k.id.clone()).or_insert(0) += 1;
+                                        is_known = true;
+                                    }
+                                    None => local.violation_count += 1,
+                                }
                             }
                             Outcome::HarnessError(e) => {
                                 if local.harness_errors.len() < 20 {
@@ -317,7 +331,7 @@ pub fn run_cases<P: Property>(p: &P, seed: u64, tier: Tier, count: u64) -> Batch
                                 }
                             }
                         }
-                        let is_violation = matches!(outcome, Outcome::Violation(_));
+                        let is_violation = matches!(outcome, Outcome::Violation(_)) && !is_known;
                         if is_violation && local.violating.len() < MAX_KEPT_VIOLATIONS {
                             local.violating.push(RunRecord { index: i, case: Some(case), outcome, stats, key });
                         } else if i < nfixed + 3 {
@@ -474,7 +488,7 @@ pub fn drive<P: Property>(p: &P, tier: Tier, out: &mut dyn std::io::Write) -> i3
     let paths = Paths::new();
     let count = std::env::var("VERIF_RUNS").ok().and_then(|s| s.parse().ok()).unwrap_or_else(|| p.runs(tier));
     let known = load_known_findings(&paths.known());
-    let batch = run_cases(p, seed, tier, count);
+    let batch = run_cases(p, seed, tier, count, &known);
     let total = &batch.total;
     let distinct = &batch.distinct;
     let degenerate = &batch.degenerate;
@@ -484,7 +498,7 @@ pub fn drive<P: Property>(p: &P, tier: Tier, out: &mut dyn std::io::Write) -> i3
     // Minimise and report: one replay file per distinct (class, known-finding) pair, at
     // most 4 minimisations per invocation.
     let mut new_violations = batch.violation_count.saturating_sub(violating.len() as u64);
-    let mut known_hits: BTreeMap<String, u64> = BTreeMap::new();
+    let mut known_hits: BTreeMap<String, u64> = batch.known_hits.clone();
     let mut reported: BTreeSet<String> = BTreeSet::new();
     let mut violation_lines: Vec<String> = Vec::new();
     let mut minimised = 0;
